@@ -202,7 +202,7 @@ func linuxScenario(p ScenParams) Scenario {
 	tgt.WriteString("\n*filter\n:INPUT DROP\n-A INPUT -j ACCEPT -s 10.1.11.111 -d 10.10.1.2 -p tcp --dport " + port + "\n")
 	return Scenario{ID: p.id(), Backend: "Linux", Preamble: pre.String(), Table: tbl,
 		Netspoc: map[string]string{"router": tgt.String()},
-		Shape: map[string]int{"yesno": b2i(p.YesNo), "iptables": b2i(p.IPTables)}}
+		Shape: map[string]int{"yesno": b2i(p.YesNo), "iptables": b2i(p.IPTables), "realscp": 1}}
 }
 
 func panosScenario(p ScenParams) Scenario {
